@@ -911,6 +911,22 @@ def features(f):
     return need, quant, extra
 
 
+def has_int_pow(f):
+    """does the formula contain a `pow` whose base is an integer term (typed Real by pySMT: finding F05)"""
+    seen, stack, memo = set(), [f], {}
+    while stack:
+        n = stack.pop()
+        if id(n) in seen:
+            continue
+        seen.add(id(n))
+        if n.node_type() == op.POW:
+            s = node_sort(n.arg(0), memo)
+            if s is not None and s.is_int_type():
+                return True
+        stack.extend(n.args())
+    return False
+
+
 def need_bits(need):
     bits = []
     for f in FIELDS:
@@ -952,6 +968,7 @@ class Shapes:
         self.fII = S("c13_fII", F(INT, [INT]))
         self.fRR = S("c13_fRR", F(REAL, [REAL]))
         self.fBB = S("c13_fBB", F(BOOL, [BOOL]))
+        self.fRB = S("c13_fRB", F(BOOL, [REAL]))
         self.fAI = S("c13_fAI", F(ArrayType(INT, REAL), [INT]))
 
     def all(self):
@@ -1009,6 +1026,8 @@ class Shapes:
         A(("times-linear", m.LE(m.Times(r, R(Fraction(1, 3))), s)))
         A(("pow", m.LE(m.Pow(r, R(2)), R(4))))
         A(("pow", m.LE(m.Pow(m.Plus(r, s), R(3)), R(8))))
+        A(("pow-int", m.LT(m.Pow(x, I(2)), m.Pow(y, I(3)))))
+        A(("pow-int", self.app(self.fRB, m.Pow(x, I(2)))))
         # difference logic shaped (not a covered feature, but must still be covered by the answer)
         A(("difference", m.LE(m.Minus(x, y), I(3))))
         A(("difference", m.LT(m.Minus(r, s), R(3))))
@@ -1080,11 +1099,12 @@ def detect_check(ctx, env, tag, f, stats):
     rp = {"kind": "detect", "tag": tag, "formula": f.serialize()[:400], "wire": w, "needs": sorted(need),
           "quantified": quant}
     root = op.op_to_str(f.node_type())
+    context = "int-pow" if has_int_pow(f) else "plain"
 
     def missing(kind, have_bits, qf, label):
         miss = uncovered(have_bits, nb)
         for ft in miss:
-            ctx.report_s({"oracle": kind, "missing": ft, "via": need.get(ft, "?")},
+            ctx.report_s({"oracle": kind, "missing": ft, "via": need.get(ft, "?"), "context": context},
                          "%s of `%s` is %s: lacks %s (needed because of %s)" % (
                              kind, f.serialize()[:160], label, ft, need.get(ft, "?")), rp)
         if quant and qf:
@@ -1208,6 +1228,10 @@ def detection(ctx, lean_caps):
                 has_pow = " pow " in (" " + w + " ")
                 b.add("fragment " + w, "false" if has_pow else "true", "inFragment of " + f.serialize()[:200])
                 ctx.count("detect_in_fragment" if not has_pow else "detect_out_of_fragment_pow")
+            if "sorted" in lean_caps:
+                # the hypotheses of detect_covers (Spec.HasType, no pow) hold for everything pysmt builds, except `pow`
+                b.add("sorted " + w, "false" if " pow " in (" " + w + " ") else "true",
+                      "well-sorted and pow-free: " + f.serialize()[:200])
         b.run(ctx, "detection")
     else:
         ctx.count("k_detection_skipped_no_lean_model", len(kcases))
